@@ -647,12 +647,16 @@ func (e *Engine) convert(fr *Frame, st *State, x *ssa.Convert) Val {
 		e.assume(st, T{fmt.Sprintf("(forall ((i Int)) (! (=> (and (<= 0 i) (< i (str.len %s))) (= (select %s i) (str.to_code (str.at %s i)))) :pattern ((select %s i))))", tv.S, arr.S, tv.S, arr.S), sBool})
 		e.recStore(st, hn, r)
 		e.setHeap(st, hn, tStore(h, r, arr))
-		e.declFun("bytes_str", "(Ref) String")
-		e.assume(st, T{fmt.Sprintf("(= (bytes_str %s) %s)", r.S, tv.S), sBool})
+		e.declFun("bytes_str", "((Array Int Int) Int Int) String")
+		e.assume(st, T{fmt.Sprintf("(= (bytes_str %s 0 (str.len %s)) %s)", arr.S, tv.S, tv.S), sBool})
 		return e.name(T{fmt.Sprintf("(mk_slice %s 0 (str.len %s) (str.len %s))", r.S, tv.S, tv.S), sSlice}, "s")
 	case fs == sSlice && ts == sStr:
-		// string(b): opaque function of the bytes; exact when b came from []byte(s) unchanged is not tracked
-		res := e.fresh(sStr, "str")
+		// string(b): a function of the bytes actually stored
+		et := from.Underlying().(*types.Slice).Elem()
+		hn, hs := e.elemHeap(et)
+		h := e.heap(st, hn, hs)
+		e.declFun("bytes_str", "((Array Int Int) Int Int) String")
+		res := e.name(T{fmt.Sprintf("(bytes_str (select %s (sbase %s)) (soff %s) (slen %s))", h.S, tv.S, tv.S, tv.S), sStr}, "str")
 		e.assume(st, T{fmt.Sprintf("(= (str.len %s) (slen %s))", res.S, tv.S), sBool})
 		return res
 	case fs == sInt && ts == sStr:
